@@ -275,7 +275,9 @@ func (s *PfcpServer) sendReqTo(msg message.Message, addr net.Addr) error {
 		return errors.Errorf("sendReqTo: invalid req type(%d)", msg.MessageType())
 	}
 
-	txtr := NewTxTransaction(s, addr, s.txSeq)
+	// PFCP sequence numbers are 24 bits wide: the transaction must be keyed
+	// by the value that goes on the wire, or no response can ever match it
+	txtr := NewTxTransaction(s, addr, s.txSeq&0xffffff)
 	s.txSeq++
 	s.txTrans[txtr.id] = txtr
 
